@@ -81,7 +81,10 @@ def make_case(seed: int, tier: str, prop: str, opts=None) -> Dict[str, Any]:
         else:
             v["schedule"] = gen.gen_schedule(h64(seed, "v", j), sc, 1 + j)
         variants.append(v)
-    return {"scenario": sc, "variants": variants}
+    case = {"scenario": sc, "variants": variants}
+    if len(sc["sims"]) <= 3 and h64(seed, "sat") % (20 if tier == "quick" else 5) == 0:
+        case["saturation"] = 24 if tier == "quick" else 60
+    return case
 
 
 def apply_variant(sc, v):
@@ -271,6 +274,42 @@ def run_case(case, prop) -> Dict[str, Any]:
     if len(sc["sims"]) <= 3:
         st["small_scenarios"] = 1
         st["small_scenario_interleavings"] = len(fps_case)
+        # reach measure (evidence only, not a deciding step): for a share of the small scenarios many
+        # more schedules are sampled and the views compared; "saturated" = the second half of the
+        # samples produced no interleaving fingerprint the first half had not produced
+        if case.get("saturation") and ob == "ok":
+            n_extra = case["saturation"]
+            seen, first_half = set(), 0
+            for k in range(n_extra):
+                v2 = {"cfg": dict(BASE_CFG), "transports": ["gated"] * len(sc["sims"]),
+                      "schedule": {"profile": ("ties", "uniform", "per_sim", "slow_req")[k % 4],
+                                   "seed": h64(next(iter(out["scen"])), "sat", k) % (1 << 30)}}
+                r = runner.execute(apply_variant(sc, v2), v2["schedule"])
+                out["runs"] += 1
+                fp = pcore.fingerprint(r.hist)
+                seen.add(fp)
+                out["fps"].add(fp)
+                if k == n_extra // 2 - 1:
+                    first_half = len(seen)
+                if outcome_class(r.outcome) != ob or (ob == "ok" and first_difference(vb, view(r.hist)) is not None):
+                    d = first_difference(vb, view(r.hist)) or {"what": "outcome_differ"}
+                    ex = explain(sc, base, apply_variant(sc, v2), r, known)
+                    if d.get("what") == "inputs_differ" and "KF-D7" not in ex and (
+                            subtier_early_direct(sc, base, d, "base")
+                            or subtier_early_direct(apply_variant(sc, v2), r, d, "variant")):
+                        ex = sorted(set(ex) | {"KF-D7"})
+                    all_known = bool(ex) and all(x.startswith("KF-") for x in ex)
+                    viol = {"kind": d.get("what", "outcome_differ"), "detail": dict(d, axes=["schedule", "transport"]),
+                            "features": {"explained_by_known_finding": all_known, "primary": ex[0] if all_known else None},
+                            "digest": digest(r.hist), "case": {"scenario": sc, "variants": [v2]}}
+                    key = (viol["kind"], json.dumps(viol["features"], sort_keys=True))
+                    if key not in reported:
+                        reported.add(key)
+                        out["violations"].append(viol)
+            st["saturation_probes"] = 1
+            st["saturation_interleavings"] = len(seen)
+            if len(seen) == first_half:
+                st["saturation_probes_saturated"] = 1
     out["sample"] = {"scenario": sc, "variant": case["variants"][-1] if case["variants"] else None,
                      "outcome": ob, "steps": sum(len(x) for x in vb.values())}
     out["digest"] = digest(digs)
